@@ -206,6 +206,7 @@ def _pack_annotated_serializable_type(
         spec.copy(
             type=value_type,
             expression=f"{spec.expression}._serialize()",
+            could_be_none=True,
         )
     )
 
